@@ -311,10 +311,10 @@ def gen(ctx):
 
     for n in (1, 2, 3):
         for seq in itertools.product(range(len(red)), repeat=n):
-            if n == 3 and not full and (seq[0] * 37 + seq[1] * 11 + seq[2]) % 9:
+            if n == 3 and not full and (seq[0] * 37 + seq[1] * 11 + seq[2]) % 4:
                 continue
             yield from emit([red[i] for i in seq])
-    for _ in range(40000 if full else 1500):
+    for _ in range(150000 if full else 4000):
         n = rng.randint(4, 6)
         yield from emit([rng.choice(allops) for _ in range(n)])
     # crafted: three-level merges, same-prefix merges, re-registration through every path
